@@ -52,6 +52,19 @@ def rad_case(draw):
     return {"kind": "rad", "v": draw(st.sampled_from(["rad", "mrad"])), "x": draw(G.magnitudes())}
 
 
+ANGLES = [R.render(G.atom(p, s)) for (p, s) in G.GROUPS[G.RAD_DIM] if s != "rad"] + ["deg*m/cm", "rad2", "sr"]
+
+
+@st.composite
+def bare_refuse_case(draw):
+    """a bare number converts to radians only: every other dimensional target must be refused"""
+    if draw(st.booleans()):
+        v = draw(st.sampled_from(ANGLES))
+    else:
+        v = R.render(draw(G.expr_of_dim(draw(st.sampled_from(G.NONZERO_DIMS)))))
+    return {"kind": "bare_refuse", "v": v, "x": draw(G.magnitudes()), "ratio": draw(st.booleans())}
+
+
 @st.composite
 def refuse_case(draw):
     d1 = draw(st.sampled_from(G.DIMS))
@@ -67,6 +80,7 @@ def strategies(tier):
         "recip": (recip_case(), 600, 15000),
         "rad": (rad_case(), 150, 2000),
         "refuse": (refuse_case(), 1000, 25000),
+        "bare_refuse": (bare_refuse_case(), 400, 8000),
     }
 
 
@@ -233,10 +247,36 @@ def check_refuse(case, v):
     v.label("refuse")
 
 
+def check_bare_refuse(case, v):
+    from scinumtools.units import Quantity
+    tv = case["v"]
+    if "(" in tv:
+        return v.discard("parenthesised-target")
+    atoms = R.atoms_of_expression_text(tv)
+    if all(s == "rad" for (_p, s) in atoms) and sum(atoms.values()) == 1 and len(atoms) == 1:
+        return v.discard("number-to-rad-is-legal")      # radians (any prefix) once everything else has cancelled
+    if not atoms:
+        return v.discard("dimensionless-target")
+    q = Quantity(case["x"], "m") / Quantity(2.0, "cm") if case["ratio"] else Quantity(case["x"])
+    before_v, before_u = np.array(q.value(), dtype=float, copy=True), q.units()
+    for name, fn in (("value", lambda: q.value(tv)), ("to", lambda: q.to(tv))):
+        try:
+            r = fn()
+        except Exception:
+            pass
+        else:
+            return v.fail("refuse-accepted", f"a bare number {q!r} .{name}({tv!r}) returned {r!r}; only radians are allowed")
+        after = np.array(q.value(), dtype=float)
+        if q.units() != before_u or not np.array_equal(after, before_v, equal_nan=True):
+            return v.fail("refuse-mutated", f"after refused {name}({tv!r}): {q.value()!r} {q.units()!r}")
+    v.nt(True)
+    v.label("bare_refuse")
+
+
 def check(case):
     v = Verdict()
     try:
-        {"convert": check_convert, "recip": check_recip, "rad": check_rad, "refuse": check_refuse}[case["kind"]](case, v)
+        {"bare_refuse": check_bare_refuse, "convert": check_convert, "recip": check_recip, "rad": check_rad, "refuse": check_refuse}[case["kind"]](case, v)
     finally:
         if not R.tables_pristine():
             R.restore_tables()
